@@ -19,7 +19,7 @@ ID = "C39"
 LEVEL = "model_checking"
 TECHNIQUE = "explicit-state BFS over read/write-attempt histories on the real EKO; invariant: archive hash unchanged, every write attempt raises"
 LEVEL_TEXT = (
-    "all histories up to the depth bound over 21 operations from 3 initial states are executed on the "
+    "all histories up to the depth bound over 22 operations from 3 initial states are executed on the "
     "real object; the archive's SHA-256 is compared after every step and after the session"
 )
 LEVEL_NOTE = "bounded depth (quick 3, thorough 5); one archive content; trusted: hashlib, the op classification (mutating / not)"
@@ -41,7 +41,7 @@ MUTATING = {
     "parts_matching_set",
     "setitem_operators",
 }
-OPS = sorted(MUTATING) + ["get", "read_recipes", "read_part", "list", "items", "unload", "del_operators", "dump", "close", "exit"]
+OPS = sorted(MUTATING) + ["get", "with_operator", "read_recipes", "read_part", "list", "items", "unload", "del_operators", "dump", "close", "exit"]
 INITS = ["ro_open", "closed_after_rw", "closed_after_ro"]
 
 
@@ -103,6 +103,9 @@ def _apply(e, name):
             e.operators[Target(25.0, 5)] = Operator(a)
         elif name == "get":
             _ = e[EP0]
+        elif name == "with_operator":
+            with e.operator(EP0) as o:
+                _ = o.operator.sum()
         elif name == "list":
             _ = list(e)
         elif name == "items":
